@@ -134,11 +134,19 @@ func descr(in linIn, out linOut) string {
 }
 
 func linCase(c *vlib.Ctx, kind int, i int, r *vlib.Rand) {
+	section := "lin-" + []string{"rq", "dq"}[kind]
+	if skipAbandoned(c, section, i) {
+		return
+	}
 	capCh := []int{0, 1, 1, 2, 2, 3, 5}
 	caps := [2]int{capCh[r.Intn(len(capCh))], capCh[r.Intn(len(capCh))]}
 	q := newQ(kind, caps)
 	T := q.name()
 	lanes := q.lanes()
+	// no history here offers more than 5×10 elements (+ pills): callbacks beyond that are a
+	// runaway eviction loop, aborted by the guard and reported below
+	guard := installGuard(q, 256)
+	var runaway int32
 	G := r.Range(2, 5)
 	getters := 0
 	if r.Intn(3) == 0 {
@@ -193,6 +201,14 @@ func linCase(c *vlib.Ctx, kind int, i int, r *vlib.Rand) {
 				w = wGetter
 			}
 			ops := make([]porcupine.Operation, 0, n)
+			defer func() {
+				if e := recover(); e != nil {
+					if !isRunaway(e) {
+						panic(e)
+					}
+					atomic.StoreInt32(&runaway, 1)
+				}
+			}()
 			defer func() { hist[g] = ops }()
 			<-startCh
 			for k := 0; k < n; k++ {
@@ -248,6 +264,7 @@ func linCase(c *vlib.Ctx, kind int, i int, r *vlib.Rand) {
 	if !waitDone(done(&wwg)) {
 		atomic.AddInt32(&stallsSeen, 1)
 		c.Inconclusive(caseID, "watchdog fired while non-blocking workers were running")
+		noteSectionStall(c, section, caseID)
 		return
 	}
 	if getters > 0 {
@@ -284,8 +301,15 @@ func linCase(c *vlib.Ctx, kind int, i int, r *vlib.Rand) {
 			} else {
 				c.Inconclusive(caseID, fmt.Sprintf("watchdog %v fired (bare timeout) waiting for blocking getters", watchdog))
 			}
+			noteSectionStall(c, section, caseID)
 			return
 		}
+	}
+	if atomic.LoadInt32(&runaway) != 0 {
+		c.Fail(T+".PutForce:eviction-runaway", fmt.Sprintf("small history: Overflowed/Failed were invoked %d times: the eviction loop of a forced put does not terminate (aborted by the monitor)", atomic.LoadInt64(&guard.calls)),
+			map[string]interface{}{"type": T, "capacity": caps[:lanes], "gomaxprocs": procs})
+		noteSectionStall(c, section, caseID)
+		return
 	}
 	var all []porcupine.Operation
 	for _, h := range hist {
